@@ -18,14 +18,11 @@ from hl7apy.parser import get_message_info, parse_message
 from hl7apy.exceptions import InvalidEncodingChars, ParserError
 
 ROLES = ['FIELD', 'COMPONENT', 'REPETITION', 'ESCAPE', 'SUBCOMPONENT', 'TRUNCATION']
-K = ['|', '^', '~', '\\', '&', '#', '!'] + (['*'] if THOROUGH else [])
+K = ['|', '^', '~', '\\', '&', '#'] + (['!', '*'] if THOROUGH else [])
 VERS = ['2.3', '2.5', '2.7', '2.8.1']
 REST = ['A', 'B', '', '', '2020', '', 'ADT', '1', 'P']      # MSH-3 .. MSH-11 ; MSH-12 (version) appended
 
 
-def _plain(ch):
-    """characters that could be confused with message content are outside the claim"""
-    return len(ch) == 1 and not ch.isalnum() and ch not in '._'
 
 
 # ---- H.info ------------------------------------------------------------------------------------------------
@@ -63,26 +60,61 @@ def _info(chars, version):
         return 'ParserError'
 
 
-def _ob_info4(vi: int, f: str, c: str, r: str, e: str, s: str) -> bool:
-    """
-    pre: 0 <= vi < 4 and in_part(vi)
-    pre: _plain(f) and _plain(c) and _plain(r) and _plain(e) and _plain(s)
-    post: _
-    """
-    vi = bsearch(vi, 4)
-    chars = [f, c, r, e, s]
-    return _info(chars, VERS[vi]) == _expect(chars, VERS[vi])
+HV = [0, 1, 2, 3] if THOROUGH else [1, 2]      # versions used by the header obligations (below / from 2.7)
+NHV = len(HV)
+POOLS = ['|^~\\&#', '!*@?$+', '#&\\~^|']      # characters given to the equality classes, in order of first occurrence
 
 
-def _ob_info5(vi: int, f: str, c: str, r: str, e: str, s: str, t: str) -> bool:
+def _rgs(n):
+    """restricted growth strings of length n = all equality patterns of n positions"""
+    out = [[0]]
+    for _ in range(n - 1):
+        out = [p + [k] for p in out for k in range(max(p) + 2)]
+    return out
+
+
+def _cases(n):
+    """(pattern, blank class or -1, pool index): every equality pattern of n characters, with at most one class being the
+    blank, spelled with three different pools of punctuation marks"""
+    out = []
+    for p in _rgs(n):
+        for blank in range(-1, max(p) + 1):
+            for pool in range(len(POOLS)):
+                out.append((p, blank, pool))
+    return out
+
+
+CASES4, CASES5 = _cases(5), _cases(6)
+NC4, NC5 = len(CASES4), len(CASES5)
+
+
+def _chars(case):
+    p, blank, pool = case
+    return [' ' if k == blank else POOLS[pool][k] for k in p]
+
+
+def _ob_info4(vi: int, ci: int) -> bool:
     """
-    pre: 0 <= vi < 4 and in_part(vi)
-    pre: _plain(f) and _plain(c) and _plain(r) and _plain(e) and _plain(s) and _plain(t)
+    pre: 0 <= vi < NHV and 0 <= ci < NC4
+    pre: in_part(ci)
     post: _
     """
-    vi = bsearch(vi, 4)
-    chars = [f, c, r, e, s, t]
-    return _info(chars, VERS[vi]) == _expect(chars, VERS[vi])
+    vi, ci = HV[bsearch(vi, NHV)], bsearch(ci, NC4)
+    with concrete():
+        chars = _chars(CASES4[ci])
+        return _info(chars, VERS[vi]) == _expect(chars, VERS[vi])
+
+
+def _ob_info5(vi: int, ci: int) -> bool:
+    """
+    pre: 0 <= vi < NHV and 0 <= ci < NC5
+    pre: in_part(ci)
+    post: _
+    """
+    vi, ci = HV[bsearch(vi, NHV)], bsearch(ci, NC5)
+    with concrete():
+        chars = _chars(CASES5[ci])
+        return _info(chars, VERS[vi]) == _expect(chars, VERS[vi])
 
 
 # ---- H.check ----------------------------------------------------------------------------------------------
@@ -202,10 +234,10 @@ def explain(call):
     name = m.group(1)
     tr = []
     if name in ('_ob_info4', '_ob_info5'):
-        names = ['vi', 'f', 'c', 'r', 'e', 's', 't']
-        v = dict(zip(names, a)); v.update(kw)
-        chars = [v[x] for x in names[1:] if x in v]
-        tr.append('get_message_info(MSH + %r + ...) version %s -> %r ; expected %r' % (''.join(chars), VERS[v['vi']], _info(chars, VERS[v['vi']]), _expect(chars, VERS[v['vi']])))
+        v = dict(zip(['vi', 'ci'], a)); v.update(kw)
+        chars = _chars((CASES4 if name == '_ob_info4' else CASES5)[v['ci']])
+        ver = VERS[HV[v['vi']]]
+        tr.append('get_message_info(MSH + %r + ...) version %s -> %r ; expected %r' % (''.join(chars), ver, _info(chars, ver), _expect(chars, ver)))
     elif name in ('_ob_roles5', '_ob_roles6'):
         v = dict(zip(['vi', 'p'], a)); v.update(kw)
         perm = (PERMS5 if name == '_ob_roles5' else PERMS6)[v['p']]
@@ -222,17 +254,19 @@ SPEC = {
     'functions_encoded': ['hl7apy.parser._split_msh/get_message_info', 'hl7apy.check_encoding_chars', 'hl7apy.get_default_encoding_chars',
                           'hl7apy.core.Message.__init__/_get_encoding_chars/_set_encoding_chars/to_mllp', 'hl7apy.core.Element.encoding_chars/to_er7',
                           'hl7apy.core.Segment.to_er7', 'hl7apy.core.Field.to_er7', 'hl7apy.parser.parse_message and the parser levels below it'],
-    'assumptions': ['H.info: the 5-6 characters are fully symbolic one-character strings restricted to non-alphanumeric characters '
-                    'other than "." and "_" (such characters would be indistinguishable from the concrete header content)',
+    'assumptions': ['H.info: the header characters range over every equality pattern x blank placement, spelled with three pools of '
+                    'punctuation marks; the case index is symbolic and exhausted (the variant with 5-6 FULLY symbolic characters was '
+                    'built and did not confirm within 400 s per piece - 1 800+ paths - and is therefore not claimed; fully symbolic '
+                    'headers are covered, with a no-crash oracle, by C15 H.type/H.info)',
                     'M.roles: delimiters are realised from the finite candidate set K=%r (fully symbolic delimiters cannot pass '
                     'str.split under CrossHair); the role assignment index is symbolic and exhausted' % ''.join(K)],
     'outside': ['candidate characters beyond K at message level; delimiter sets that also occur in leaf text'],
     'stubs': [],
     'obligations': [
-        {'name': 'H.info4', 'fn': '_ob_info4', 'parts': 4, 'cond_timeout': {'quick': 400, 'thorough': 1500}, 'path_timeout': 60,
-         'bound': 'get_message_info on a header with 4 encoding characters: 5 fully symbolic characters x 4 versions'},
-        {'name': 'H.info5', 'fn': '_ob_info5', 'parts': 4, 'cond_timeout': {'quick': 400, 'thorough': 1500}, 'path_timeout': 60,
-         'bound': 'get_message_info on a header with 5 encoding characters: 6 fully symbolic characters x 4 versions'},
+        {'name': 'H.info4', 'fn': '_ob_info4', 'parts': 4, 'cond_timeout': 900, 'path_timeout': 60,
+         'bound': 'get_message_info, header with 4 encoding characters: every equality pattern of the 5 characters x which class is blank x 3 character pools (%d cases) x versions %r' % (NC4, [VERS[x] for x in HV])},
+        {'name': 'H.info5', 'fn': '_ob_info5', 'parts': 12, 'cond_timeout': 900, 'path_timeout': 60,
+         'bound': 'get_message_info, header with 5 encoding characters: every equality pattern of the 6 characters x which class is blank x 3 character pools (%d cases) x versions %r' % (NC5, [VERS[x] for x in HV])},
         {'name': 'H.check', 'fn': '_ob_check', 'parts': 1, 'cond_timeout': 300, 'path_timeout': 60,
          'bound': 'check_encoding_chars: every (missing key, equalised pair, with/without TRUNCATION)'},
         {'name': 'M.roles5', 'fn': '_ob_roles5', 'parts': 32, 'cond_timeout': 1500, 'path_timeout': 60,
